@@ -213,7 +213,64 @@ func c06Monitor(tbl []c06Entry, host string, qt uint16, o c06Obs, viaCheckHost b
 	if matched && !cname && !anyExc && hasVal && len(o.ips) == 0 {
 		return false, "value-dropped", "the table has a value of the requested type for the name but none was returned"
 	}
+	// Exceptions are effective in whatever letter case they were typed.
+	passed := o.reason == 0 && o.canon == "" && len(o.ips) == 0
+	excExact, selfExact, allExactCnameSelf := false, false, true
+	for _, e := range tbl {
+		if !strings.EqualFold(e.dom, host) {
+			continue
+		}
+		switch {
+		case e.ans == "A":
+			excExact = excExact || qt == dns.TypeA
+		case e.ans == "AAAA":
+			excExact = excExact || qt == dns.TypeAAAA
+		case c06IsCnameAns(e.ans):
+			if strings.EqualFold(e.ans, host) {
+				selfExact = true
+			} else {
+				allExactCnameSelf = false
+			}
+		}
+	}
+	if excExact && !cname && !c06IsWild(host) && !passed {
+		return false, "exception-ignored", "an \"A\"/\"AAAA\" entry for exactly this name and type (compared without letter case, no CNAME entry covering the name) did not pass the query on"
+	}
+	if selfExact && allExactCnameSelf && !passed {
+		return false, "self-exception-ignored", "the entry \"name -> name\" (compared without letter case) did not pass the query on"
+	}
 	return true, "", ""
+}
+
+// c06IsCnameAns: is the answer text a canonical name (not an address, not "A"/"AAAA")?
+func c06IsCnameAns(a string) bool {
+	if a == "A" || a == "AAAA" {
+		return false
+	}
+	_, err := netip.ParseAddr(a)
+	return err != nil
+}
+
+func c06HasUpper(s string) bool { return s != strings.ToLower(s) }
+
+// c06MixCase returns s with a random subset of its letters in upper case (at
+// least one when s has a letter).
+func c06MixCase(r *vfRand, s string) string {
+	b := []byte(s)
+	var letters []int
+	for i, c := range b {
+		if c >= 'a' && c <= 'z' {
+			letters = append(letters, i)
+			if r.Chance(1, 2) {
+				b[i] = c - 32
+			}
+		}
+	}
+	if len(letters) > 0 && string(b) == s {
+		i := letters[r.Intn(len(letters))]
+		b[i] -= 32
+	}
+	return string(b)
 }
 
 var (
@@ -270,28 +327,51 @@ func c06Prelude() []c06Table {
 		{label: "pre-v4in6", entries: E("a.test", "::ffff:1.2.3.4", "a.test", "1.1.1.1")},
 		{label: "pre-depth3", entries: E("*.c.b.a.test", "1.1.1.1", "*.b.a.test", "c.b.a.test", "c.b.a.test", "::1")},
 		{label: "pre-wild-literal-query", entries: E("*.a.test", "x.test", "x.test", "1.1.1.1")},
+		// exceptions typed with capital letters
+		{label: "pre-exc-mixed-a", entries: E("A.Test", "A", "*.test", "1.1.1.1", "*.test", "::1"), extraQ: []string{"A.TEST", "a.Test"}},
+		{label: "pre-exc-mixed-aaaa", entries: E("B.A.Test", "AAAA", "*.a.test", "::1", "*.a.test", "1.1.1.1"), extraQ: []string{"b.A.test"}},
+		{label: "pre-exc-mixed-a-beside-value", entries: E("X.TEST", "1.1.1.1", "x.Test", "AAAA", "*.test", "::1")},
+		{label: "pre-exc-mixed-wild", entries: E("*.A.Test", "A", "*.test", "1.1.1.1", "*.B.a.TEST", "AAAA", "*.test", "::1")},
+		{label: "pre-exc-mixed-self-dom", entries: E("B.A.Test", "b.a.test", "*.a.test", "1.1.1.1"), extraQ: []string{"B.a.test"}},
+		{label: "pre-exc-mixed-self-ans", entries: E("b.a.test", "B.a.test", "*.a.test", "1.1.1.1")},
+		{label: "pre-exc-mixed-self-both", entries: E("B.A.Test", "B.A.Test", "*.a.test", "1.1.1.1"), extraQ: []string{"B.A.Test"}},
+		{label: "pre-exc-mixed-pattern-self", entries: E("*.A.Test", "*.a.test", "b.a.test", "1.1.1.1", "*.X.test", "*.X.test", "y.x.test", "2.2.2.2")},
+		{label: "pre-mixed-chain", entries: E("a.test", "X.Test", "x.test", "Y.x.test", "Y.X.TEST", "1.1.1.1")},
+		// canonical names the scripted upstream of the response harness
+		// answers negatively
+		{label: "pre-cname-upstream-negative", entries: E("a.test", "s.fail", "b.a.test", "n.nodata", "x.test", "other.example", "*.x.test", "u.down", "test", "m.multi")},
+		{label: "pre-chain-upstream-negative", entries: E("a.test", "x.test", "x.test", "s.fail", "*.a.test", "y.x.test", "y.x.test", "N.NoData")},
 	}
 }
 
-func c06RandAnswer(r *vfRand, dom string) string {
+// c06Outside: names outside the table universe; the scripted upstream of the
+// response harness answers them negatively by suffix.
+var c06Outside = []string{"other.example", "s.fail", "n.nodata", "u.down", "m.multi",
+	"q.a.test", "d.c.b.a.test", "z.test", "Other.Example", "S.Fail"}
+
+// c06RandAnswer: typed is the domain as configured.
+func c06RandAnswer(r *vfRand, typed string) string {
 	switch k := r.Intn(100); {
-	case k < 30:
+	case k < 28:
 		return vfPick(r, c06V4)
-	case k < 45:
+	case k < 42:
 		return vfPick(r, c06V6)
-	case k < 52:
+	case k < 50:
 		return "A"
-	case k < 60:
+	case k < 58:
 		return "AAAA"
-	case k < 66:
-		return dom // self / pattern onto itself
-	case k < 69:
+	case k < 62:
+		return strings.ToLower(typed) // self / pattern onto itself
+	case k < 65:
+		return typed // the same, exactly as typed
+	case k < 67:
+		return c06MixCase(r, strings.ToLower(typed))
+	case k < 70:
 		return vfPick(r, c06Wilds)
-	case k < 72:
-		n := vfPick(r, c06Names)
-		return strings.ToUpper(n[:1]) + n[1:]
-	case k < 76:
-		return vfPick(r, []string{"other.example", "q.a.test", "d.c.b.a.test", "z.test"})
+	case k < 74:
+		return c06MixCase(r, vfPick(r, c06Names))
+	case k < 82:
+		return vfPick(r, c06Outside)
 	default:
 		return vfPick(r, c06Names)
 	}
@@ -304,8 +384,11 @@ func c06RandDom(r *vfRand) string {
 	} else {
 		d = vfPick(r, c06Names)
 	}
-	if r.Chance(1, 20) {
+	switch k := r.Intn(20); {
+	case k == 0:
 		d = strings.ToUpper(d)
+	case k < 4:
+		d = c06MixCase(r, d)
 	}
 	return d
 }
@@ -317,7 +400,7 @@ func c06RandTable(r *vfRand) (t c06Table) {
 		t.label = "rand-uniform"
 		for i := 0; i < n; i++ {
 			d := c06RandDom(r)
-			t.entries = append(t.entries, c06Entry{d, c06RandAnswer(r, strings.ToLower(d))})
+			t.entries = append(t.entries, c06Entry{d, c06RandAnswer(r, d)})
 		}
 	case 1, 2: // a CNAME chain, maybe closed into a cycle, maybe entered from outside
 		t.label = "rand-chain"
@@ -344,18 +427,20 @@ func c06RandTable(r *vfRand) (t c06Table) {
 				t.entries = append(t.entries, c06Entry{last, nodes[r.Intn(k)]})
 			case 2: // addresses at the end
 				t.entries = append(t.entries, c06Entry{last, vfPick(r, c06V4)}, c06Entry{last, vfPick(r, c06V6)})
+			default: // the chain leaves the table
+				t.entries = append(t.entries, c06Entry{last, vfPick(r, c06Outside)})
 			}
 		}
 		for len(t.entries) < n {
 			d := c06RandDom(r)
-			t.entries = append(t.entries, c06Entry{d, c06RandAnswer(r, strings.ToLower(d))})
+			t.entries = append(t.entries, c06Entry{d, c06RandAnswer(r, d)})
 		}
 	default: // few names, many entries: conflicts and duplicates
 		t.label = "rand-dense"
 		doms := []string{vfPick(r, c06Names), vfPick(r, c06Wilds), c06RandDom(r)}
 		for i := 0; i < n; i++ {
 			d := vfPick(r, doms)
-			t.entries = append(t.entries, c06Entry{d, c06RandAnswer(r, strings.ToLower(d))})
+			t.entries = append(t.entries, c06Entry{d, c06RandAnswer(r, d)})
 		}
 	}
 	if len(t.entries) > 0 && r.Chance(1, 3) {
@@ -369,6 +454,9 @@ func c06RandTable(r *vfRand) (t c06Table) {
 	vfShuffle(r, t.entries)
 	if r.Chance(1, 4) {
 		t.extraQ = append(t.extraQ, strings.ToUpper(vfPick(r, c06Names)))
+	}
+	if r.Chance(1, 6) {
+		t.extraQ = append(t.extraQ, c06MixCase(r, vfPick(r, c06Names)))
 	}
 	if r.Chance(1, 10) {
 		t.extraQ = append(t.extraQ, "")
@@ -480,11 +568,35 @@ func TestVerifC06(t *testing.T) {
 			switch {
 			case e.ans == "A" || e.ans == "AAAA":
 				classes["tab-type-exception"] = true
-			case e.ans == strings.ToLower(e.dom):
+			case strings.EqualFold(e.ans, e.dom):
 				classes["tab-self-entry"] = true
 			}
 			if c06IsWild(e.dom) {
 				classes["tab-wild-depth-"+fmt.Sprint(strings.Count(e.dom, "."))] = true
+			}
+			// exception entries typed with capital letters
+			isType := e.ans == "A" || e.ans == "AAAA"
+			isSelf := c06IsCnameAns(e.ans) && strings.EqualFold(e.ans, e.dom)
+			if (isType || isSelf) && (c06HasUpper(e.dom) || isSelf && c06HasUpper(e.ans)) {
+				classes["exception-mixed-case"] = true
+				switch {
+				case isType && c06IsWild(e.dom):
+					classes["exception-mixed-case-wild-type"] = true
+				case isType:
+					classes["exception-mixed-case-type"] = true
+				case c06IsWild(e.dom):
+					classes["exception-mixed-case-pattern-self"] = true
+				case c06HasUpper(e.ans):
+					classes["exception-mixed-case-self-answer"] = true
+				default:
+					classes["exception-mixed-case-self-domain"] = true
+				}
+			}
+			if c06HasUpper(e.dom) {
+				classes["tab-mixed-case-domain"] = true
+			}
+			if c06IsCnameAns(e.ans) && c06HasUpper(e.ans) {
+				classes["tab-mixed-case-cname-answer"] = true
 			}
 		}
 
